@@ -79,6 +79,10 @@ pub struct BhCase {
     /// may depend on their presence)
     #[serde(default)]
     pub listeners: bool,
+    /// callers (by index, mod 64) whose task has used up its cooperative budget on other ready
+    /// work when it first polls the call future
+    #[serde(default)]
+    pub starve_mask: u64,
 }
 
 #[derive(Clone, Debug, Serialize, Deserialize)]
@@ -110,6 +114,7 @@ fn stress_strategy(tier: Tier) -> BoxedStrategy<BhCase> {
             decoy: 0,
             nest_mask: 0,
             listeners: false,
+            starve_mask: 0,
             stress: Some(Stress {
                 max,
                 threads,
@@ -288,9 +293,10 @@ fn case_strategy(tier: Tier) -> BoxedStrategy<BhCase> {
             prop_oneof![3 => Just(0u8), 1 => 1u8..=3],
             prop_oneof![5 => Just(0u64), 1 => (0u64..64).prop_map(|k| 1 << k), 1 => any::<u64>().prop_map(|m| m & 0xff)],
             prop::bool::weighted(0.3),
+            prop_oneof![4 => Just(0u64), 1 => (0u64..64).prop_map(|k| 1 << k), 1 => any::<u64>()],
         ),
     )
-        .prop_map(|(max, wait, clones, callers, order, hold, (setter_order, decoy, nest_mask, listeners))| BhCase {
+        .prop_map(|(max, wait, clones, callers, order, hold, (setter_order, decoy, nest_mask, listeners, starve_mask))| BhCase {
             max,
             wait,
             clones,
@@ -302,6 +308,7 @@ fn case_strategy(tier: Tier) -> BoxedStrategy<BhCase> {
             nest_mask,
             stress: None,
             listeners,
+            starve_mask,
         })
         .boxed()
 }
@@ -642,6 +649,9 @@ async fn interp(case: &BhCase) -> Verdict {
                         saw_delayed_poll = true;
                     }
                     let task = sim.spawn_call(fut, map_outcome);
+                    if (case.starve_mask >> (i % 64)) & 1 == 1 {
+                        sim.starve_first_poll(task);
+                    }
                     rt[i].task = Some(task);
                     if c.cancel_after.map_or(true, |d| c.at + d != t) {
                         arrivals_now[c.svc2 as usize].push(i);
@@ -986,6 +996,9 @@ async fn interp(case: &BhCase) -> Verdict {
     }
     if case.listeners {
         v.classes.push("event_listeners_registered");
+    }
+    if case.starve_mask & ((1u64 << case.callers.len().min(63)) - 1) != 0 {
+        v.classes.push("first_poll_with_exhausted_cooperative_budget");
     }
     if sim.order.multi_picks > 0 {
         v.classes.push("poll_order_choice");
